@@ -55,6 +55,55 @@ def dec_jobs(tier, ops=DEC_OPS):
     return jobs, bounds
 
 
+DEC_ASSUME = ["pre-state: arbitrary DecoderBuffer with 0<=R<=len(Data)<=BufferSize, 0<=WindowSize<BufferSize, len(Data)<=Off<=2^40, "
+              "len(Data)>=WindowSize or Off==len(Data) (the representation invariant; every harness re-asserts it on the post-state, so it is inductive)",
+              "io.Writer stub: accepts k<=len(p) bytes and returns a non-nil error iff k<len(p)",
+              "append growth as measured on this toolchain's runtime (go1.23.5 growslice)", "64-bit int"]
+DEC_OUTSIDE = ["slices longer than the stated len/cap bounds", "blocks with more than 2 sequences (covered inductively: WriteBlock's loop state is the buffer state)",
+               "32-bit platforms", "text of error messages"]
+
+
+def dec_spec(tier, ops, expl):
+    jobs, bounds = dec_jobs(tier, ops)
+    return {"jobs": jobs, "bounds": bounds, "assumptions": DEC_ASSUME, "outside": DEC_OUTSIDE, "explanation": expl,
+            "reach": {"zzH_decWriteMatch": ["end", "match-ok"], "zzH_decWriteBlock": ["end"]}}
+
+
 def spec_C04(tier):
-    jobs, bounds = dec_jobs(tier)
-    return {"jobs": jobs, "bounds": bounds}
+    return dec_spec(tier, DEC_OPS, "inductive step for every DecoderBuffer operation: from an arbitrary state satisfying the invariant, one call with "
+                    "arbitrary operands leaves Data' = drop(delta<=R, Data) ++ reference expansion, R' = R-delta, window addressable, invariant preserved; "
+                    "Read/WriteTo hand out exactly Data[R:...]. Covers histories of any length by induction. Decoder-level interleavings: see C18/C06 harnesses.")
+
+
+def spec_C05(tier):
+    return dec_spec(tier, ["decWriteMatch", "decWriteBlock", "decRejectOne"],
+                    "WriteBlock/WriteMatch with LitLen/MatchLen/Offset/Aux ranging over all of uint32 from an arbitrary buffer state: every index, slice and "
+                    "conversion check is a solver query (no feasible panic); malformed => error; on error the buffer is drop(delta)++expansion of the k "
+                    "consumed sequences only and the caller's arrays are unchanged")
+
+
+def spec_C17(tier):
+    return dec_spec(tier, ["decWriteByte", "decWrite", "decWriteMatch", "decWriteBlock", "decReset", "decRejectOne"],
+                    "n/k/l and Off against ghost counts computed from the reference expansion (not from len differences), including calls that "
+                    "shrink the buffer and calls that stop with an error")
+
+
+# ---------------------------------------------------------------- manifest data
+
+TRUST = ("go/ssa lowering (x/tools v0.29.0), the engine's instruction semantics (validated on every run by native replay of path witnesses), "
+         "z3 5.1.0, the intrinsics/stubs listed in the evidence, go1.23.5 append growth, 64-bit int")
+
+META = {
+    "C04": {"level": "bounded model checking by induction: every DecoderBuffer operation is executed symbolically from an arbitrary state satisfying the "
+                     "representation invariant, with all operands symbolic; the solver shows the relational post-condition against the reference LZ77 "
+                     "expander and the invariant for all values inside the slice-size bounds, which covers histories of any length",
+            "note": "bounds: see evidence.bounds (slice sizes); invariant and writer contract are assumptions. " + TRUST},
+    "C05": {"level": "bounded model checking: WriteBlock/WriteMatch with Seq fields over all of uint32 and arbitrary literals from an arbitrary valid buffer state; "
+                     "every bounds/slice/conversion check of the real code is a solver query, so 'no panic' and 'malformed => atomic rejection' are decided for all "
+                     "field values inside the size bounds", "note": "bounds: see evidence.bounds. " + TRUST},
+    "C17": {"level": "bounded model checking by induction: n, k, l and Off are compared with ghost counts derived from the reference expansion for every "
+                     "operation from an arbitrary valid state, including paths on which the call shrinks the buffer or stops with an error",
+            "note": "bounds: see evidence.bounds. " + TRUST},
+}
+
+NOT_APPLICABLE = {}
